@@ -242,6 +242,49 @@ pub fn run(ctx: &RunCtx) -> i32 {
             shared.merge(r);
         });
     }
+    // after the tail: a valid message (each integrity / fingerprint tail, values right) with one more attribute appended
+    // inside the header length - well formed, with a malformed VALUE (address family 7, a 2-byte ERROR-CODE, invalid UTF-8
+    // in a USERNAME), or announcing more bytes than remain: what a validating decoder does with it, a plain one does too
+    {
+        use crate::refs::codec::{push_tlv, ref_encode};
+        let tails: Vec<Vec<L>> = vec![vec![L::Fp], vec![L::Mi], vec![L::Sha], vec![L::Mi, L::Fp], vec![L::Mi, L::Sha, L::Fp]];
+        let extras: Vec<(u16, Vec<u8>, bool)> = vec![
+            (0x8022, b"ok".to_vec(), false),
+            (0x0020, vec![0x00, 0x07, 0xa1, 0x47, 0xe1, 0x12, 0xa6, 0x43], false),
+            (0x0009, vec![0x00, 0x00], false),
+            (0x0006, vec![0xff, 0xfe, 0xfd], false),
+            (0x0014, vec![], false),
+            (0x8022, b"abcd".to_vec(), true),
+        ];
+        let mut msgs: Vec<Vec<u8>> = vec![];
+        for t in &tails {
+            for body in [vec![], vec![L::Software("s".into()), L::Priority(3)]] {
+                let mut attrs = body.clone();
+                attrs.extend(t.clone());
+                let base = ref_encode(&crate::menu::lmsg(1, 2, [0x78; 12], attrs), Some(&raw));
+                for (ty, val, overlong) in &extras {
+                    let mut m = base.clone();
+                    push_tlv(&mut m, *ty, val);
+                    if *overlong {
+                        let n = m.len();
+                        m[n - 8 + 2..n - 8 + 4].copy_from_slice(&40u16.to_be_bytes());
+                    }
+                    let l = (m.len() - 20) as u16;
+                    m[2..4].copy_from_slice(&l.to_be_bytes());
+                    msgs.push(m);
+                }
+            }
+        }
+        msgs.par_chunks(8).for_each(|ch| {
+            let decs = super::c03::decoders(&key);
+            let mut r = Report::new();
+            for b in ch {
+                relations(b, "attribute-after-the-tail", &decs, &mut r);
+            }
+            r.sym("attribute-after-the-tail");
+            shared.merge(r);
+        });
+    }
     // unknown attributes whose values collide under cheap digests: equal length and equal CRC-32 (difference = the CRC
     // polynomial at a byte offset), equal byte sum / XOR (two bytes swapped), reversed, identical - two or three of them
     // in one message, under equal and different types: each must keep exactly its own bytes
@@ -298,9 +341,9 @@ pub fn run(ctx: &RunCtx) -> i32 {
         rep,
         Finish {
             level: "exploration",
-            rule: format!("{} seeds (menu messages x tails, RFC 5769 vectors, messages with unknown comprehension-required / -optional attributes of 0..5 value bytes), every single-fault mutant of each (bit flips only for seeds <=80 bytes in the quick tier), and every {{O,MI,SHA,FP}} sequence up to length 5 (6 thorough) with all-correct and all-wrong checksum values; plus the offset family (three unknown-attribute bodies x three tails behind a filler at every 4-aligned body offset 0..=4200 (thorough 16,400), around multiples of 4096 (1024) and at every offset 65,300..=65,532); messages with two or three unknown attributes whose values collide under cheap digests (equal length and CRC-32, swapped bytes, reversed, identical; equal and different types); every seed also decoded through every construction route of every configuration (builder calls in every order, a repeated call, clones of the decoder and of the context, DecoderContext::default(), MessageDecoder::default()), which must agree with the canonical decoder; each byte string decoded under all 16 option combinations and without context, results compared pairwise against the five stated relations. Non-trivial = distinct byte string for which at least one not-ignore configuration decoded successfully", n_seeds),
+            rule: format!("{} seeds (menu messages x tails, RFC 5769 vectors, messages with unknown comprehension-required / -optional attributes of 0..5 value bytes), every single-fault mutant of each (bit flips only for seeds <=80 bytes in the quick tier), and every {{O,MI,SHA,FP}} sequence up to length 5 (6 thorough) with all-correct and all-wrong checksum values; plus the offset family (three unknown-attribute bodies x three tails behind a filler at every 4-aligned body offset 0..=4200 (thorough 16,400), around multiples of 4096 (1024) and at every offset 65,300..=65,532); valid messages with one more attribute appended after their (verifying) integrity / fingerprint tail - well formed, malformed in value, or announcing more bytes than remain; messages with two or three unknown attributes whose values collide under cheap digests (equal length and CRC-32, swapped bytes, reversed, identical; equal and different types); every seed also decoded through every construction route of every configuration (builder calls in every order, a repeated call, clones of the decoder and of the context, DecoderContext::default(), MessageDecoder::default()), which must agree with the canonical decoder; each byte string decoded under all 16 option combinations and without context, results compared pairwise against the five stated relations. Non-trivial = distinct byte string for which at least one not-ignore configuration decoded successfully", n_seeds),
             assumptions: vec!["raw value bytes of unknown attributes are taken from the independent TLV reader".into()],
-            required_symbols: vec!["seeds", "kind-sequences", "offset-family", "decoder-construction-routes", "colliding-unknown-values", "unknown-data-compared", "bit-flip", "attribute-move"],
+            required_symbols: vec!["seeds", "kind-sequences", "offset-family", "decoder-construction-routes", "colliding-unknown-values", "attribute-after-the-tail", "unknown-data-compared", "bit-flip", "attribute-move"],
             min_outcomes: 2,
             exhaustive: true,
             bounds: json!({"seeds": n_seeds}),
